@@ -13,7 +13,8 @@ class Condition:
         self.id = cid
         self.body = body
         self.replay = replay
-        self.budget = budget
+        cap = os.environ.get("VERIF_BUDGET_CAP")      # maintenance runs (corpus generation): per-condition CPU budget capped; a condition
+        self.budget = min(budget, float(cap)) if cap else budget   # that runs out is INCONCLUSIVE as always, its explored paths still yield witnesses
         self.bounds = bounds
         self.models = tuple(models)
         self.setup = setup
